@@ -176,6 +176,7 @@ class Program:
             p = os.path.join(self.root, rel)
             if p not in files:
                 files.append(p)
+        parsed = []
         for path in files:
             rel = os.path.relpath(path, self.root)
             if rel in self.overlay:
@@ -187,12 +188,17 @@ class Program:
                 with warnings.catch_warnings():
                     warnings.simplefilter("ignore")
                     tree = ast.parse(src, filename=rel)
-                    if os.environ.get("STVERIF_NORMALISE", "1") != "0":
-                        from .normalise import normalise
-                        tree = normalise(tree)
             except SyntaxError as e:
                 self.parse_errors.append((rel, str(e)))
                 continue
+            parsed.append((path, rel, src, tree))
+        self.reidentified = {}
+        if os.environ.get("STVERIF_NORMALISE", "1") != "0" and self.package == "syne_tune":
+            from .reidentify import reidentify
+            from .normalise import normalise
+            self.reidentified = reidentify({rel: tree for _, rel, _, tree in parsed})
+            parsed = [(path, rel, src, normalise(tree)) for path, rel, src, tree in parsed]
+        for path, rel, src, tree in parsed:
             parts = rel[:-3].split(os.sep)
             is_pkg = parts[-1] == "__init__"
             if is_pkg:
